@@ -291,3 +291,326 @@ func RunCache(sc CacheScenario, base string, emit func(Ev)) error {
 	}
 	return nil
 }
+
+// ---- C06: a query while the recorder ends a run and begins the next (HistoryConc.tla) -------------------------------
+
+type ConcScenario struct {
+	Scen  int         `json:"scen"`
+	Src   string      `json:"src"`
+	Query string      `json:"query"` // today (latest status) | recent
+	N     int         `json:"n"`
+	Steps []CacheStep `json:"steps"`
+}
+
+// kindOf: which of the model's files a history file is: run number (from the request id r<k>) and copy
+func concFile(path string) (int, string) {
+	b := filepath.Base(path)
+	kind := "orig"
+	if len(b) > 6 && b[len(b)-6:] == "_c.dat" {
+		kind = "comp"
+	}
+	run := 0
+	for i := 0; i+1 < len(b); i++ {
+		if b[i] == '.' && b[i+1] == 'k' && i+2 < len(b) && b[i+2] >= '1' && b[i+2] <= '9' {
+			run = int(b[i+2] - '0')
+		}
+	}
+	return run, kind
+}
+
+type concArrive struct {
+	point, file string
+}
+
+func RunConc(sc ConcScenario, base string, emit func(Ev)) error {
+	dir := filepath.Join(base, fmt.Sprintf("conc%d", sc.Scen))
+	os.MkdirAll(dir, 0o755)
+	defer os.RemoveAll(dir)
+	filecache.VerifHook = nil
+	var mu sync.Mutex
+	actors := map[int64]chan concArrive{}
+	releases := map[int64]chan struct{}{}
+	jsondb.VerifHook = func(point, file string) {
+		id := goid()
+		mu.Lock()
+		a, r := actors[id], releases[id]
+		mu.Unlock()
+		if a == nil {
+			return
+		}
+		a <- concArrive{point, file}
+		<-r
+	}
+	defer func() { jsondb.VerifHook = nil }()
+	const dagFile = "/dags/conc.yaml"
+	status := func(run int) *model.Status {
+		return &model.Status{RequestID: fullReq(fmt.Sprintf("k%d", run)), Name: "conc", Status: scheduler.StatusRunning, Params: "v" + strconv.Itoa(run)}
+	}
+	emit(Ev{"ev": "Reset", "scen": sc.Scen, "src": sc.Src, "query": sc.Query, "n": sc.N})
+	infra := func(err error) error {
+		emit(Ev{"ev": "Infra", "scen": sc.Scen, "err": err.Error()})
+		return err
+	}
+	t0 := time.Now().Add(-time.Minute)
+	// run 1: completed (compacted); run 2: open, one status
+	rec1 := jsondb.New(dir, false)
+	if err := rec1.Open(dagFile, t0, status(1).RequestID); err != nil {
+		return infra(err)
+	}
+	rec1.Write(status(1))
+	if err := rec1.Close(); err != nil {
+		return infra(err)
+	}
+	rec2 := jsondb.New(dir, false)
+	if err := rec2.Open(dagFile, t0.Add(time.Second), status(2).RequestID); err != nil {
+		return infra(err)
+	}
+	rec2.Write(status(2))
+	rec3 := jsondb.New(dir, false)
+	server := jsondb.New(dir, false)
+
+	type actor struct {
+		arrive  chan concArrive
+		release chan struct{}
+		done    chan []int
+	}
+	start := func(f func() []int) *actor {
+		a := &actor{arrive: make(chan concArrive), release: make(chan struct{}), done: make(chan []int, 1)}
+		ready := make(chan struct{})
+		go func() {
+			id := goid()
+			mu.Lock()
+			actors[id], releases[id] = a.arrive, a.release
+			mu.Unlock()
+			close(ready)
+			res := f()
+			mu.Lock()
+			delete(actors, id)
+			delete(releases, id)
+			mu.Unlock()
+			a.done <- res
+		}()
+		<-ready
+		return a
+	}
+	next := func(a *actor) (*concArrive, []int, bool, error) {
+		select {
+		case p := <-a.arrive:
+			return &p, nil, false, nil
+		case r := <-a.done:
+			return nil, r, true, nil
+		case <-time.After(20 * time.Second):
+			return nil, nil, false, fmt.Errorf("actor neither reached a gate nor returned within 20 s")
+		}
+	}
+	query := func() []int {
+		if sc.Query == "today" {
+			st, err := server.ReadStatusToday(dagFile)
+			if err != nil || st == nil {
+				return []int{}
+			}
+			return []int{verOf(st)}
+		}
+		out := []int{}
+		for _, sf := range server.ReadStatusRecent(dagFile, sc.N) {
+			out = append(out, verOf(sf.Status))
+		}
+		return out
+	}
+	var q, rec *actor
+	qParked := false // parked at a "visit" gate
+	step := func(a string, extra Ev) {
+		e := Ev{"ev": "Step", "scen": sc.Scen, "a": a, "run": 0, "kind": "", "answer": []int{}}
+		for k, v := range extra {
+			e[k] = v
+		}
+		emit(e)
+	}
+	// after a release of the query: what it does next
+	advanceQuery := func() error {
+		for {
+			p, res, done, err := next(q)
+			if err != nil {
+				return err
+			}
+			if done {
+				step("return", Ev{"answer": res})
+				q, qParked = nil, false
+				return nil
+			}
+			if p.point == "listed" {
+				// a new listing in the middle of the query
+				step("relist", nil)
+				q.release <- struct{}{}
+				continue
+			}
+			if p.point == "visit" {
+				qParked = true
+				return nil
+			}
+			return fmt.Errorf("query at unexpected gate %q", p.point)
+		}
+	}
+	var parkedFile string
+	for _, st := range sc.Steps {
+		switch st.A {
+		case "list":
+			if q != nil {
+				continue
+			}
+			q = start(query)
+			p, res, done, err := next(q)
+			if err != nil {
+				return infra(err)
+			}
+			if done {
+				step("list", nil)
+				step("return", Ev{"answer": res})
+				q = nil
+				continue
+			}
+			if p.point != "listed" {
+				return infra(fmt.Errorf("query at unexpected gate %q", p.point))
+			}
+			step("list", nil)
+			q.release <- struct{}{}
+			p2, res, done, err := next(q)
+			if err != nil {
+				return infra(err)
+			}
+			if done {
+				step("return", Ev{"answer": res})
+				q = nil
+				continue
+			}
+			qParked, parkedFile = true, p2.file
+		case "visit":
+			if q == nil || !qParked {
+				continue
+			}
+			run, kind := concFile(parkedFile)
+			// the visit itself (stat + parse) happens when the gate is released
+			q.release <- struct{}{}
+			qParked = false
+			p, res, done, err := next(q)
+			if err != nil {
+				return infra(err)
+			}
+			if done {
+				step("visit", Ev{"run": run, "kind": kind})
+				step("return", Ev{"answer": res})
+				q = nil
+				continue
+			}
+			if p.point == "listed" {
+				step("relist", Ev{"run": run, "kind": kind})
+				q.release <- struct{}{}
+				p2, res, done, err := next(q)
+				if err != nil {
+					return infra(err)
+				}
+				if done {
+					step("return", Ev{"answer": res})
+					q = nil
+					continue
+				}
+				qParked, parkedFile = true, p2.file
+				continue
+			}
+			step("visit", Ev{"run": run, "kind": kind})
+			qParked, parkedFile = true, p.file
+		case "return":
+			// the code returns by itself after its last visit
+		case "ccreate":
+			if rec != nil {
+				continue
+			}
+			rec = start(func() []int { rec2.Close(); return nil })
+			p, _, done, err := next(rec)
+			if err != nil || done || p.point != "compact.created" {
+				return infra(fmt.Errorf("compaction did not reach its first gate: %v %v", p, err))
+			}
+			step("ccreate", nil)
+		case "cwrite":
+			if rec == nil {
+				continue
+			}
+			rec.release <- struct{}{}
+			p, _, done, err := next(rec)
+			if err != nil || done || p.point != "compact.written" {
+				return infra(fmt.Errorf("compaction did not reach its second gate: %v %v", p, err))
+			}
+			step("cwrite", nil)
+		case "cunlink":
+			if rec == nil {
+				continue
+			}
+			rec.release <- struct{}{}
+			_, _, done, err := next(rec)
+			if err != nil || !done {
+				return infra(fmt.Errorf("compaction did not end: %v", err))
+			}
+			rec = nil
+			step("cunlink", nil)
+		case "open2":
+			if err := rec3.Open(dagFile, t0.Add(2*time.Second), status(3).RequestID); err != nil {
+				return infra(err)
+			}
+			step("open2", nil)
+		case "write2":
+			if err := rec3.Write(status(3)); err != nil {
+				return infra(err)
+			}
+			step("write2", nil)
+		}
+	}
+	// drain
+	_ = advanceQuery
+	for q != nil && qParked {
+		run, kind := concFile(parkedFile)
+		q.release <- struct{}{}
+		qParked = false
+		p, res, done, err := next(q)
+		if err != nil {
+			return infra(err)
+		}
+		if done {
+			step("visit", Ev{"run": run, "kind": kind})
+			step("return", Ev{"answer": res})
+			q = nil
+			break
+		}
+		if p.point == "listed" {
+			step("relist", Ev{"run": run, "kind": kind})
+			q.release <- struct{}{}
+			p2, res, done, err := next(q)
+			if err != nil {
+				return infra(err)
+			}
+			if done {
+				step("return", Ev{"answer": res})
+				q = nil
+				break
+			}
+			qParked, parkedFile = true, p2.file
+			continue
+		}
+		step("visit", Ev{"run": run, "kind": kind})
+		qParked, parkedFile = true, p.file
+	}
+	if rec != nil {
+		// let the compaction finish (not recorded: the query has returned)
+		for {
+			rec.release <- struct{}{}
+			_, _, done, err := next(rec)
+			if err != nil {
+				return infra(err)
+			}
+			if done {
+				break
+			}
+		}
+	}
+	rec3.Close()
+	return nil
+}
